@@ -1,7 +1,23 @@
 # C20 — density sketch keeps exact counts and is exact before its first compaction
 #
-# Mutations confirmed caught (scratch worktree, VERIF_REPO): see the list at the end of this comment block
-# (filled in after the mutation runs).
+# Mutations confirmed caught (round 2; scratch worktree /tmp/wt_density = /repo + fixes/20_*.patch, VERIF_REPO, seed 1, quick tier;
+# each reported as VIOLATION, reason in brackets):
+#   M1  compact_level: `--num_retained_` omitted            [getters: num_retained 4 vs 0 after a compaction that drops everything; can also hang update()]
+#   M2  merge: `n_ += other.n_` removed                       [n_exact: n = 29 but 65 points were fed; estimate_value]
+#   M3  update: dimension check removed                       [update_wrong_dim_accepted; sanitizer stop in the kernel]
+#   M4  get_estimate divides by num_retained_ instead of n_   [estimate_value]
+#   M5  iterator weight `height_` instead of `1 << height_`   [iteration_weight]
+#   M5b update loop `>` instead of `>=`                       [transcripts differ: compaction one update late]
+#   M5c sign test `delta <= 0`                                [transcripts differ: other points promoted]
+#   M5d kernel arguments swapped in compact_level             [transcripts differ (asymmetric kernel 1); estimate_value]
+#   M5e get_estimate dimension check dropped again            [estimate_wrong_dim_not_refused - KNOWN-FINDING while that entry is still in known_findings.json]
+#   M5f is_empty() tests num_retained_ again                  [merge_ignores_source_with_zero_retained / n_exact / transcripts differ]
+#   M6..M12 (serialization; caught by checks/fam_densitycodec.py): n written before num_retained; stream writer skips the size word of
+#       empty levels; serialize(header) end pointer bug back; bytes reader level-size bounds check dropped (ASan); final count check
+#       dropped; stream check after the level size dropped (endless loop, allocation cap); preamble_ints 6 accepted with the empty flag
+# Harmless rewrites confirmed NOT reported (exit 0, 698/698 cases validated):
+#   H1  constructor reserves 8 levels (vector growth)      H2  update: ++n_, ++num_retained_ before the push_back
+#   H3  merge: counters added before the level copy         H4  the unhooked std::shuffle replaced by a hand-written Fisher-Yates
 import struct
 from fractions import Fraction
 
@@ -196,8 +212,8 @@ def oracle(case, irecs, mrecs):
             break
         R = irecs[i]['R']; F = irecs[i].get('F'); S = mrecs[i].get('S')
         c = op[0]
-        if i > 0 and irecs[i - 1]['R'] != mrecs[i - 1]['R']:
-            break       # implementation and model diverged at the previous operation: the model's ground truth no longer describes this history
+        if i > 0 and irecs[i - 1]['R'] != mrecs[i - 1]['R'] and case['ops'][i - 1][0] not in (4, 5, 6, 8):
+            break       # implementation and model diverged at a state-changing operation: the model's ground truth no longer describes this history
         if c == 1 and R == [1] and len(op) >= 5:
             regs[op[1]] = (op[2], op[3], op[4]); deser.discard(op[1])
         elif c == 7 and R == [1] and op[1] in regs:
@@ -295,14 +311,17 @@ FAMILIES = [dict(name='density', harness='drv_density.cpp', extract='Extract_den
                  crash_sig=crash_sig)]
 
 MANIFEST = dict(
-    level_text=('Theorems (coq/Properties_C20.v, axiom-free) about an executable model of density_sketch for ANY kernel into Z, any merge tree of '
-                'updates and ANY sequence of internal choices: num_retained = sum of level sizes = length of the iteration, iteration weights are '
-                '2^level, num_retained <= k * levels at rest, wrong-dimension updates/merges refused, the compaction loops terminate (fuel never '
-                'exhausted), n exact and merge adds n (for sources with retained points; always for a strictly positive kernel), estimate = exact kernel '
-                'mean over the inputs while there is one level, estimate >= 0 for a non-negative kernel. The model is tied to density_sketch_impl.hpp by '
-                'running both on the same generated scripts with the hooked choices replayed (n, retained, flags, sorted iteration compared exactly; '
-                'the double estimate compared with the model rational within the rounding bound) and by evaluating the property predicates on the implementation outputs.'),
+    level_text=('Theorems (coq/Properties_C20.v, 19, axiom-free) about an executable model of density_sketch (the code with the repairs fixes/20_is_empty_n and '
+                'fixes/20_estimate_dim_check; the old behaviour is kept as refuted statements in coq/Regression_density.v) for ANY kernel into Z, any merge tree of '
+                'updates and ANY sequence of internal choices: n exact and every accepted merge adds n; num_retained = sum of level sizes = length of the iteration, '
+                'iteration weights are 2^level, retained points are input points of the configured dimension; num_retained <= k * levels at rest; wrong-dimension '
+                'updates, merges and queries refused; the compaction loops terminate (fuel never exhausted); the estimate is defined whenever n > 0 (also when the '
+                'compactions dropped every point), equals the exact kernel mean over the inputs while there is one level, equals (sum over the iteration of weight * K) / n '
+                'after any compactions and merges, and is >= 0 for a non-negative kernel. The model is tied to density_sketch_impl.hpp by running both on the same generated '
+                'scripts with the hooked choices replayed (n, retained, flags, sorted iteration compared exactly; the double estimate compared with the model rational within '
+                'the rounding bound) and by evaluating the property predicates on the implementation outputs. Serialization of the sketch: checks/fam_densitycodec.py (C09, C11).'),
     level_note=('Trusted: Coq kernel; hand-written model validated only by the correspondence runs; choices read from the hook; harness kernels exact '
                 'dyadic; Gaussian kernel only on lattice points (exp = 0/1) for values, elsewhere finite/non-negative only; counter overflow and >30 levels '
-                'not modelled; floating-point rounding of get_estimate bounded, not modelled; coreset error guarantee not claimed; self-merge left to C19.'),
+                'not modelled; floating-point rounding of get_estimate bounded, not modelled; coreset error guarantee not claimed (the iterator weights need not add up to n: '
+                'Example C20_weights_need_not_sum_to_n); self-merge left to C19.'),
     design_ref='DESIGN.md section 5 C20')
